@@ -30,6 +30,7 @@ RULE = ('cases: (live) histories of 1-8 operations inside one phase body over fi
         'serialisation histories over {as_base_types, OutputToJSON with/without inline '
         'attachments, with/without allow_nan} in every order of length <= 3: strict parse, '
         'decoded structure, base64 round trip, as_base_types() still base types and fresh; '
+        '(log2) two threads log to the running test, the first held at each line of its way into the record; '
         'distinct = distinct case; non-trivial = at least one rendering was compared')
 ASSUMPTIONS = [
     'tuples and lists are identified (JSON cannot distinguish them)',
